@@ -334,12 +334,17 @@ theorem enum_float (enum : List JVal) (bits : Nat) (x : Rat) :
     cases e <;> simp [jvalToGo, convertTo, deepEq, valEq, numVal]
   · simp
 
+/-- an optional multipleOf factor that is a positive integer within int64 -/
+def PosIntBound : Option Rat → Prop
+  | none => True
+  | some m => ∃ mi : Int, m = (mi : Rat) ∧ 0 < mi ∧ mi < pow2 63
+
 theorem optErr_none (typ fmt : String) (f : Rat → Bool) : optErr typ fmt f none = false := rfl
 theorem optOK_none (f : Rat → Bool) : optOK f none = true := rfl
 
 theorem leaf_uint (O : Oracles) (rootFmt : String) (b : SBase) (req ae : Bool) (bits : Nat) (x : Nat)
     (hf : b.format = "") (hx : ((x : Int)) < pow2 63)
-    (hmax : IntBound b.maximum) (hmin : IntBound b.minimum) (hmul : b.multipleOf = none)
+    (hmax : IntBound b.maximum) (hmin : IntBound b.minimum) (hmul : PosIntBound b.multipleOf)
     (he : ∀ e ∈ b.enum, ∀ t, e ≠ .str t) :
     leafImpl O rootFmt b req ae (.uint bits x) = leafSpec O b req ae (.uint bits x) := by
   have hx' : -(pow2 63) ≤ (x : Int) ∧ (x : Int) < pow2 63 := ⟨by unfold pow2; omega, hx⟩
@@ -357,14 +362,25 @@ theorem leaf_uint (O : Oracles) (rootFmt : String) (b : SBase) (req ae : Bool) (
     | some m =>
       obtain ⟨mi, rfl, hr⟩ := ho
       simp only [optErr, optOK, inRange_intCast _ mi hr, ↓reduceIte, hfg]
+  have hmulE : optErr (typOf b) "" (mulErr O (.uint bits) ((x : Int) : Rat)) b.multipleOf
+      = !optOK (fun m => specMul ((x : Int) : Rat) m == MulRes.ok) b.multipleOf := by
+    cases hm : b.multipleOf with
+    | none => rfl
+    | some m =>
+      rw [hm] at hmul
+      obtain ⟨mi, rfl, hpos, hlt⟩ := hmul
+      have hr : -(pow2 63) ≤ mi ∧ mi < pow2 63 := ⟨by unfold pow2 at *; omega, hlt⟩
+      simp only [optErr, optOK, inRange_intCast _ mi hr, ↓reduceIte, mulErr, native_uint_mul_exact bits x mi hpos]
+      cases specMul ((x : Int) : Rat) (mi : Rat) <;> rfl
   have hnum : numBad O b (.uint bits x) = !specTypedValid [] b ((x : Int) : Rat) := by
     simp only [numBad, numKindOf, numberErrTyped, specTypedValid, hf, inRange_intCast _ (x : Int) hx', List.isEmpty_nil,
-      Bool.true_or, Bool.true_and, Bool.not_true, Bool.false_or, hmul, optErr_none, optOK_none, Bool.and_true]
+      Bool.true_or, Bool.true_and, Bool.not_true, Bool.false_or, hmulE]
     rw [hopt _ (fun m => !specMax ((x : Int) : Rat) m b.exclMax) _ hmax (fun mi => by simp only [native_uint_max_exact, Bool.not_not]),
         hopt _ (fun m => !specMin ((x : Int) : Rat) m b.exclMin) _ hmin (fun mi => by simp only [native_uint_min_exact, Bool.not_not])]
     generalize optOK (fun m => !specMax ((x : Int) : Rat) m b.exclMax) b.maximum = a1
     generalize optOK (fun m => !specMin ((x : Int) : Rat) m b.exclMin) b.minimum = a2
-    cases a1 <;> cases a2 <;> rfl
+    generalize optOK (fun m => specMul ((x : Int) : Rat) m == MulRes.ok) b.multipleOf = a3
+    cases a1 <;> cases a2 <;> cases a3 <;> rfl
   simp only [leafImpl, leafSpec, htype, hnum, strBad, fmtBad, sliceLocalBad, numVal, enum_uint _ _ _ he]
   generalize specType (typOf b) (.uint bits x) = a1
   generalize specTypedValid [] b ((x : Int) : Rat) = a2
@@ -462,7 +478,7 @@ def Frag (O : Oracles) : Nat → SSchema → GoVal → Prop
      | .bool _ => True
      | .int _ x => (-(pow2 63) ≤ x ∧ x < pow2 63) ∧ IntBound b.maximum ∧ IntBound b.minimum ∧ IntBound b.multipleOf
                    ∧ (∀ e ∈ b.enum, ∀ t, e ≠ .str t)
-     | .uint _ x => ((x : Int) < pow2 63) ∧ IntBound b.maximum ∧ IntBound b.minimum ∧ b.multipleOf = none
+     | .uint _ x => ((x : Int) < pow2 63) ∧ IntBound b.maximum ∧ IntBound b.minimum ∧ PosIntBound b.multipleOf
                    ∧ (∀ e ∈ b.enum, ∀ t, e ≠ .str t)
      | .float _ x => ((∀ n, O.isIntTol n = n.isInt) ∧ (∀ n m, O.mulOfTol n m = (n / m).isInt))
                    ∧ (typOf b = "integer" →
